@@ -260,7 +260,20 @@ pub fn run(ctx: &Ctx) -> Outcome {
         let dd = cfg.block_mode(mode, Dir::Dec).unwrap();
         let mbs = de.mbs;
         let lmax = tier.pick(2 * mbs + 1, 3 * mbs + 2).max(3);
-        let lens = byte_lengths(mbs, lmax);
+        let mut lens = byte_lengths(mbs, lmax);
+        let par = par_of(cfg);
+        // messages long enough for the parallel path inside the padded calls, and past 8 / 16 blocks
+        let mut lmax = lmax;
+        for n in [par + 1, 2 * par + 1, 9, 17] {
+            if n * mbs <= 17 * 32 {
+                for r in [0, 1, mbs - 1] {
+                    lens.push(n * mbs + r);
+                }
+            }
+        }
+        lens.sort();
+        lens.dedup();
+        lmax = lmax.max(*lens.last().unwrap());
         let plain_dec = fe_bm(cfg, dd);
         let pre = dirty(lmax + 2 * mbs);
         for key in keys(seed, cfg.key_len).iter().take(1) {
@@ -292,6 +305,64 @@ pub fn run(ctx: &Ctx) -> Outcome {
                                     ensure!(o.out == padded_m, format!("padded_vs_plain/{}", mode), "{}: block-level decryption of encrypt_padded<{}>({})(m) is {} want pad(m) = {}", dd.ty, pad.s(), ek.s(), short(&o.out), short(&padded_m));
                                     Ok(())
                                 });
+                            }
+                        }
+                    }
+                }
+                // one object used in two ways (the usual streaming pattern): whole blocks through the block-level calls, then the
+                // consuming padded call for the rest -- on both sides
+                let data = pattern(seed, 0xC01B, (2 * par + 3) * mbs);
+                let mut heads = vec![1usize, par, par + 1];
+                heads.sort();
+                heads.dedup();
+                for &h in &heads {
+                    for t in [0usize, 1, mbs - 1, mbs, mbs + 1, par * mbs + 1] {
+                        let m = &data[..h * mbs + t];
+                        for pad in PADS {
+                            let Some(padded_m) = rf::pad(pad, mbs, m) else { continue };
+                            let want_ct = family_ref(cfg, mode, Dir::Enc, key, &iv, &padded_m).0;
+                            for single in [false, true] {
+                                if single && h > 2 {
+                                    continue;
+                                }
+                                for k in KINDS {
+                                    rep.case(|| {
+                                        let feed = |obj: &mut Box<dyn BlockMode>, buf: &mut [u8]| {
+                                            if single {
+                                                for b in buf.chunks_mut(mbs) {
+                                                    obj.one(Kind::InPlace, &[], b);
+                                                }
+                                            } else {
+                                                let _ = obj.many(Kind::InPlace, &[], buf);
+                                            }
+                                        };
+                                        // encrypt: head through block-level calls, tail through encrypt_padded*
+                                        let mut e = rec::bm(cfg, de, key, &iv);
+                                        let mut ct = m[..h * mbs].to_vec();
+                                        feed(&mut e, &mut ct);
+                                        let tail = &m[h * mbs..];
+                                        let room = padded_m.len() - h * mbs;
+                                        let mut out = dirty(room);
+                                        if k == Kind::InPlace {
+                                            out[..tail.len()].copy_from_slice(tail);
+                                        }
+                                        let n = e.padded(pad, k, tail, &mut out).map_err(|_| Fail { fp: format!("padded_enc_refused/{}-enc", mode), msg: format!("{} encrypt_padded<{}>({}) after {} block(s) through the block-level calls returned Err", de.ty, pad.s(), k.s(), h) })?;
+                                        out.truncate(n);
+                                        ct.extend(out);
+                                        ensure!(ct == want_ct, format!("blocks_then_padded/{}-enc", mode), "{}: {} block(s) through the block-level calls, then encrypt_padded<{}>({}) of {} bytes on the same object: {} want {} (first diff at byte {:?})", de.ty, h, pad.s(), k.s(), t, short(&ct), short(&want_ct), first_diff(&ct, &want_ct));
+                                        // decrypt the same way
+                                        let mut d = rec::bm(cfg, dd, key, &iv);
+                                        let mut back = ct[..h * mbs].to_vec();
+                                        feed(&mut d, &mut back);
+                                        let rest = &ct[h * mbs..];
+                                        let mut out = if k == Kind::InPlace { rest.to_vec() } else { dirty(rest.len()) };
+                                        let n = d.padded(pad, k, rest, &mut out).map_err(|_| Fail { fp: format!("padded_dec_refused/{}-dec", mode), msg: format!("{} decrypt_padded<{}>({}) after {} block(s) through the block-level calls returned Err", dd.ty, pad.s(), k.s(), h) })?;
+                                        out.truncate(n);
+                                        back.extend(out);
+                                        ensure!(back == m, format!("blocks_then_padded/{}-dec", mode), "{}: {} block(s) through the block-level calls, then decrypt_padded<{}>({}) on the same object: {} want {}", dd.ty, h, pad.s(), k.s(), short(&back), short(m));
+                                        Ok(())
+                                    });
+                                }
                             }
                         }
                     }
